@@ -402,6 +402,61 @@ func (eng *Engine) bodyEffects(fn *ssa.Function) map[string]bool {
 	return out
 }
 
+// smtLight renders obligation i with every quantified hypothesis dropped (a weaker set of hypotheses, so a proof
+// from it is a proof): the cheap first attempt that settles most safety obligations of large functions.
+func (vc *VC) smtLight(i int) string {
+	return vc.smtLightPath(i, -1)
+}
+
+// smtLightPath: light rendering restricted to covering path k (k < 0: the merged guard).
+func (vc *VC) smtLightPath(i, k int) string {
+	vc.emitLemmaAxioms()
+	var sb strings.Builder
+	for _, l := range vc.out {
+		for _, ln := range strings.Split(l, "\n") {
+			t := strings.TrimSpace(ln)
+			switch {
+			case strings.HasPrefix(t, "(assert (forall"):
+				if strings.Contains(t, "(elt.") && strings.Contains(t, ":pattern ((elt.") {
+					sb.WriteString(ln + "\n")
+				}
+				continue
+			case strings.HasPrefix(t, "(define-fun R") && strings.Contains(t, " () Bool (and R") && (strings.Contains(t, "(forall ") || strings.Contains(t, "(exists ")):
+				// (define-fun R!k () Bool (and R!prev A)) with quantified A  ==>  R!k := R!prev
+				f := strings.Fields(t)
+				if len(f) >= 6 {
+					prev := strings.TrimSuffix(f[5], ")")
+					sb.WriteString(fmt.Sprintf("(define-fun %s () Bool %s)\n", f[1], prev))
+					continue
+				}
+			}
+			sb.WriteString(ln + "\n")
+		}
+	}
+	o := vc.obls[i]
+	if k >= 0 {
+		sb.WriteString(fmt.Sprintf("(assert (and %s %s (not %s)))\n", o.Guard, o.Paths[k], o.Cond))
+	} else {
+		sb.WriteString(fmt.Sprintf("(assert (and %s (not %s)))\n", o.Guard, o.Cond))
+	}
+	sb.WriteString("(check-sat)\n")
+	return sb.String()
+}
+
+// smtPath renders obligation i restricted to one of its covering path conditions.
+func (vc *VC) smtPath(i, k int) string {
+	vc.emitLemmaAxioms()
+	var sb strings.Builder
+	for _, l := range vc.out {
+		sb.WriteString(l)
+		sb.WriteString("\n")
+	}
+	o := vc.obls[i]
+	sb.WriteString(fmt.Sprintf("(assert (and %s %s (not %s)))\n", o.Guard, o.Paths[k], o.Cond))
+	sb.WriteString("(check-sat)\n")
+	return sb.String()
+}
+
 // smtSingle renders a query file for one obligation only (no push/pop: the solvers' non-incremental strategies apply).
 func (vc *VC) smtSingle(i int) string {
 	vc.emitLemmaAxioms()
